@@ -283,3 +283,14 @@ Theorem gen_every_method_covered :
   List.length all_tx_methods = 30%nat.
 Proof. exact gen_every_method_covered_l. Qed.
 Print Assumptions gen_every_method_covered.
+
+(* every md.Publish call and every subscription of the apps, as read from the source; every
+   (publishing transaction handler, subscriber) pair has a failing class in the twin stream (or
+   cannot fail) *)
+Theorem gen_publish_sites : all_publishes = expected_publishes /\ all_subscriptions = expected_subscriptions.
+Proof. exact gen_publish_sites_l. Qed.
+Print Assumptions gen_publish_sites.
+
+Theorem gen_publish_pairs_covered : publishes_covered = true.
+Proof. exact gen_publish_pairs_covered_l. Qed.
+Print Assumptions gen_publish_pairs_covered.
